@@ -7,6 +7,7 @@ package main
 //   govc dump  -func '(*ShmSegment).allocateLocked'   print SSA of a function
 
 import (
+	"go/token"
 	"encoding/json"
 	"flag"
 	"fmt"
@@ -283,6 +284,45 @@ func cmdCheck(args []string) int {
 			for _, cl := range fc.Clauses {
 				if (cl.Kind == "invariant" || cl.Kind == "decreases" || cl.Kind == "onrepeat") && cl.Loop >= len(g.loops) {
 					g.errorf("%s: contract names loop %d but the function has %d loops", label, cl.Loop, len(g.loops))
+				}
+			}
+			for _, cl := range fc.Clauses {
+				if cl.Kind != "noblock" {
+					continue
+				}
+				props := cl.Props
+				if len(props) == 0 {
+					props = fc.Props
+				}
+				var blocking []string
+				var scan func(f *ssa.Function)
+				scan = func(f *ssa.Function) {
+					for _, b := range f.Blocks {
+						for _, in := range b.Instrs {
+							switch in := in.(type) {
+							case *ssa.Send:
+								blocking = append(blocking, "send at "+c.fset.Position(in.Pos()).String())
+							case *ssa.Select:
+								if in.Blocking {
+									blocking = append(blocking, "select without default at "+c.fset.Position(in.Pos()).String())
+								}
+							case *ssa.UnOp:
+								if in.Op == token.ARROW {
+									blocking = append(blocking, "receive at "+c.fset.Position(in.Pos()).String())
+								}
+							}
+						}
+					}
+				}
+				scan(fn)
+				q := "(set-logic ALL)\n(assert false)\n(check-sat)\n"
+				what := "no blocking channel operation in " + label
+				if len(blocking) > 0 {
+					q = "(set-logic ALL)\n(declare-const witness Int)\n(assert (= witness 0))\n(check-sat)\n(get-model)\n"
+					what += ": " + strings.Join(blocking, "; ")
+				}
+				if containsStr(props, *prop) {
+					allObls = append(allObls, &Obl{Name: label + "/noblock", Kind: "noblock", Props: props, Func: label, Text: what, Seq: 1 << 30, Custom: q})
 				}
 			}
 			if len(g.errs) > 0 {
